@@ -51,6 +51,12 @@ Theorem C03_concat (n : nat) p (c : cfg (concat_op n)) :
 Proof. exact (fun H Hc => pk_c03 (concat_protocol H Hc)). Qed.
 Print Assumptions C03_concat.
 
+(** flatten: every emitted inner is a fresh source (guard [g_flatten]) *)
+Theorem C03_flatten p (c : cfg flatten_op) :
+  std p -> reach p g_flatten c -> forall s, dispose_respected s (trace c).
+Proof. exact (fun H Hc => pk_c03 (flatten_protocol H Hc)). Qed.
+Print Assumptions C03_flatten.
+
 (** share, for every number of sinks, as C12 quantifies it (no nested fan-out: guard [g_share]) *)
 Theorem C03_share p (c : cfg share_op) :
   share_regime p -> reach p g_share c -> forall s, dispose_respected s (trace c).
